@@ -27,6 +27,14 @@ for pid in all_ids:
 na = [{"property_id": pid, "reason": base["not_applicable_reasons"].get(pid, "no check registered yet: model, proof and correspondence for this property are still being built (see DESIGN.md)")}
       for pid in all_ids if pid not in {c["property_id"] for c in checks}]
 man = {k: v for k, v in base.items() if k != "not_applicable_reasons"}
+import subprocess
+try:
+    hooks = subprocess.run(["git", "-C", "/repo", "log", "--format=%h %s", "--grep=^verif hooks"], capture_output=True, text=True).stdout.strip().splitlines()
+    if hooks:
+        man["hooks"]["source_commits"] = [h for h in reversed(hooks)]
+except Exception:
+    pass
+man["engines"][0]["serves_properties"] = [c["property_id"] for c in checks]
 man["checks"] = checks
 man["not_applicable"] = na
 json.dump(man, open(os.path.join(ROOT, "MANIFEST.json"), "w"), indent=1)
